@@ -27,7 +27,7 @@ THEOREMS = [
     ("QcelVerif.Units.convImpl_unrelated", "code model: dimensions that differ and are not both among the six bridged ones give DimensionalityError"),
     ("QcelVerif.Units.hartree_bridges_published", "code model, any CODATA set: hartree -> Hz, 1/m, kg, K and back return exactly the published '<a>-<b> relationship' value"),
     ("QcelVerif.Units.bridge_fallback_physics", "code model: an energy source none of whose factors carries a NIST name converts to frequency as E/h exactly (fallback branch), for every such expression"),
-    ("QcelVerif.Units.nist_relationships_consistent", "both generated CODATA sets: all 56 published X-Y relationships agree with E=h nu=hc/lambda=mc^2=kT from h,c,k,e,m_u,E_h of the same set to 2e-8 relative, and R(a,b)*R(b,a)=1 to 3e-8 (kernel-evaluated on the regenerated data)"),
+    ("QcelVerif.Units.nist_relationships_consistent", "both generated CODATA sets: all 56 published X-Y relationships agree with E=h nu=hc/lambda=mc^2=kT from h,c,k,e,m_u,E_h of the same set, and R(a,b)*R(b,a)=1, to a tolerance per set: 1e-9 relative for CODATA2018 and for CODATA2014 pairs without the kelvin, 2e-8 for CODATA2014 pairs with the kelvin (kernel-evaluated on the regenerated data; a literal carried over from the other set breaks it)"),
     ("QcelVerif.Units.bridge_prefixed_source_counterexample", "KNOWN DEFECT, code model: for every prefix p and CODATA set, (10^p Hz -> hartree) = 10^(2p) * published; MHz->hartree * hartree->MHz = 10^6 * R*R'"),
     ("QcelVerif.Units.codata2014_pos", "the regenerated 2014 table is positive, so every theorem with hypothesis cd.Pos applies to it"),
     ("QcelVerif.Units.codata2018_pos", "the regenerated 2018 table is positive"),
@@ -53,14 +53,20 @@ RULE = (
     "rendered to a string for conversion_factor (random alias/prefix spelling, minimal parentheses) and sent as an AST to the Lean driver. "
     "Blocks: P every SI prefix on every table unit (both directions against the bare unit); S all ordered pairs of the per-dimension seed corpus "
     "(24 dimension classes incl. the 19 au_* units) with randomly decorated compounds; B every ordered pair of the bridged seed corpus across the six "
-    "bridged dimensions (plus every prefix on every bridged base as source in the thorough tier); U unrelated dimensions; T sampled triples; "
+    "bridged dimensions (plus every prefix on every bridged base as source in the thorough tier); Rl for each CODATA set each of the 17 published "
+    "'<X>-<Y> relationship' literals a working conversion can go through (eV, hartree, J -> Hz, 1/m, kg, K; Hz, 1/m, kg, u, K -> hartree): the bare "
+    "NIST-named source in every spelling, with numeric prefactors ('2*eV', '2 eV', '2 * (eV)') and per mole, against the bare target and against every "
+    "SI prefix on every target unit of that dimension (5 sampled per source form in the quick tier, all in the thorough tier), each judged against the "
+    "physics at the tolerance of its set; U unrelated dimensions; T sampled triples; "
     "Q Quantity-typed arguments, Datum.to_units, covalentradii.get(units=). A case is distinct by (set, rendered source, rendered target) and counted "
     "non-trivial unless source and target render to the same string."
 )
 LEVEL_TEXT = (
     "proof, partial: the group laws, the soundness of the container arithmetic, 'code model = SI model on equal dimensions', the published-hartree "
-    "bridges and the NIST consistency of the regenerated CODATA tables are Lean theorems; that pint + ureg.py implement the code model is differential "
-    "(relative 1e-12). Three bridge defect classes are proved as counter-examples and reported as known findings."
+    "bridges and the NIST consistency of the regenerated CODATA tables (to a tolerance per set: 1e-9, and 2e-8 for CODATA2014 kelvin pairs) are Lean "
+    "theorems; that pint + ureg.py implement the code model is differential (relative 1e-12); that every bridged factor the implementation returns "
+    "agrees with the physics of its own CODATA set is checked by the oracle at the same per-set tolerances. Three bridge defect classes are proved as "
+    "counter-examples and reported as known findings."
 )
 TECHNIQUE = "Lean 4 proof over an independent SI model and a hand-written model of the code + translator-regenerated CODATA tables + behavioural correspondence + Python oracle"
 
@@ -453,7 +459,37 @@ def canon(res) -> str:
 TIE_TOL = Fraction(1, 10**12)      # implementation float vs the code model's exact rational
 SI_TOL = Fraction(1, 10**12)       # same dimension: implementation vs ratio of SI magnitudes
 REL_TOL = Fraction(1, 10**11)      # reciprocity / chain / prefactor products of implementation floats
-BR_TOL = Fraction(1, 10**7)        # bridged: agreement with E = h nu = hc/lambda = mc^2 = kT "to CODATA precision"
+# bridged: agreement with E = h nu = hc/lambda = mc^2 = kT (N_A) "to CODATA precision" — per CODATA set, and per
+# whether temperature is one of the two dimensions.  Every working bridged conversion goes through exactly one
+# published '<a>-<b> relationship' literal (ureg.py:131-193) or through h itself, so its distance from the physics
+# computed with h, c, k, e, m_u, E_h of the same set is the distance of that literal.  Measured on the published
+# (unchanged) tables, all 56 ordered pairs of each set (tools: the same computation as Lean's relConsistent):
+#   CODATA2014, no kelvin : worst 2.95e-10 (hertz -> 1/m)      -> tolerance 1e-9
+#   CODATA2014, kelvin    : worst 1.08e-8  (kelvin -> hertz; k_B has 9 digits, u_r 5.7e-7) -> tolerance 2e-8
+#   CODATA2018, no kelvin : worst 4.81e-10 (kg -> hertz)       -> tolerance 1e-9
+#   CODATA2018, kelvin    : worst 3.50e-10 (1/m -> kelvin)     -> tolerance 1e-9
+# (2018: h, c, e, k, N_A are exact and NIST prints the exact quotients truncated to 10 significant digits, so < 1e-9
+# holds by construction.)  Between the two sets the 14 kelvin literals differ by >= 3.3e-7 and 28 of the 42 others by
+# 1e-9 .. 2e-8 (eV -> 1/m: 8.4e-9), so a value carried over from the other set is outside the tolerance of its class —
+# which is why the kelvin pairs of CODATA2014 get their own, wider, tolerance instead of widening the whole set; the
+# remaining 14 literals (hartree <-> Hz, 1/m ...; the c-only pairs) agree between the sets to < 1e-9, i.e. to CODATA precision.
+BR_TOL = {
+    (2014, False): Fraction(1, 10**9), (2014, True): Fraction(2, 10**8),
+    (2018, False): Fraction(1, 10**9), (2018, True): Fraction(1, 10**9),
+}
+BR_TOL_LOOSE = Fraction(1, 10**7)  # the former set-independent tolerance; only counted (distribution key), never decides
+
+
+def br_tol(year, na, nb) -> Fraction:
+    return BR_TOL[(year, "Th" in (na, nb))]
+
+
+def br_tol_text(year, na, nb) -> str:
+    return f"{float(br_tol(year, na, nb)):.0e}"
+
+
+# largest distance from the physics seen on conversions the oracle accepted, per tolerance class (evidence note)
+_DEV: dict = {}
 PUB_TOL = Fraction(1, 10**9)       # hartree <-> NIST unit reproduces the published relationship
 D6_TOL = Fraction(1, 10**9)
 
@@ -557,6 +593,53 @@ HARTREE_PUBLISHED = {
     enc(U("hertz")): "hertz", enc(INV(U("meter"))): "invm", enc(U("gram", 3)): "kg", enc(U("kelvin")): "kelvin", enc(U("amu")): "amu",
 }
 CLASS_DIM = {k: py_dim(v[0]) for k, v in SEEDS.items()}
+
+# ---- block Rl: the published relationships a working conversion can go through (ureg.py:131-193).  A source whose
+# selected factor carries the NIST name X, converted to the dimension whose NIST unit is Y, is multiplied by the literal
+# '<X>-<Y> relationship'; the reverse directions all go to hartree.  17 of the 56 literals of a set are reachable.
+REL_SOURCE = {
+    "ev": U("eV"), "hartree": U("hartree"), "joule": U("joule"),
+    "hertz": U("hertz"), "invm": INV(U("meter")), "kg": U("gram", 3), "amu": U("amu"), "kelvin": U("kelvin"),
+}
+REL_REACHABLE = [(x, y) for x in ("ev", "hartree", "joule") for y in ("hertz", "invm", "kg", "kelvin")] \
+    + [(x, "hartree") for x in ("hertz", "invm", "kg", "amu", "kelvin")]
+REL_BARE_TARGET = {"hertz": U("hertz"), "invm": INV(U("meter")), "kg": U("gram", 3), "kelvin": U("kelvin"), "hartree": U("hartree")}
+INVM_SPELLINGS = ["1/m", "1/meter", "1 / metre", "m**-1", "meter^-1", "m**(-1)", "1/(m)"]
+
+
+def rel_targets(y):
+    """every expression the target side of relationship ...-y is exercised with (prefixes on the target are not a defect class)"""
+    ps = [0] + [p for p, _, _ in PREFIXES]
+    if y == "hertz":
+        return [U("hertz", p) for p in ps] + [INV(U("second", p)) for p in ps] + [INV(U("minute")), POW(U("second"), -1)]
+    if y == "invm":
+        return [INV(U("meter", p)) for p in ps] + [U("wavenumber", p) for p in ps] + [INV(U("angstrom")), INV(U("bohr")), POW(U("bohr"), -1),
+                                                                                       POW(U("meter", -2), -1), INV(U("inch"))]
+    if y == "kg":
+        return [U("gram", p) for p in ps] + [U("amu", p) for p in ps] + [U("emass")]
+    if y == "kelvin":
+        return [U("kelvin", p) for p in ps] + [U("rankine", p) for p in ps]
+    return [U(b, p) for b in ("hartree", "joule", "eV", "calorie", "erg") for p in ps] + [
+        MUL(U("newton"), U("meter")), MUL(U("watt"), U("second")), MUL(U("volt"), U("coulomb")), MUL(U("watt", 3), U("hour")),
+        MUL(U("pascal"), POW(U("meter"), 3)), DIV(U("joule"), U("mole")), DIV(U("calorie", 3), U("mole")), DIV(U("hartree"), U("mole")),
+        DIV(U("eV"), U("mole"))]
+
+
+def rel_source_forms(rng, x):
+    """(AST, string) forms of the source that keep the relationship of X selected: every spelling of the bare unit, numeric
+    prefactors in the three ways context.py:278-331 accepts them, and (energies) the per-mole form that reaches the same literal"""
+    t = REL_SOURCE[x]
+    sps = INVM_SPELLINGS if x == "invm" else spellings(t[1], t[2])
+    forms = [(t, sp) for sp in sps]
+    for n in rng.sample(DEC_NUMS, 2):
+        sp = rng.choice(sps)
+        tn = MUL(N(n), t)
+        forms += [(tn, f"{n}*{sp}" if x != "invm" else f"{n}*({sp})"), (tn, f"{n} * ({sp})")]
+        if x != "invm":
+            forms.append((tn, f"{n} {sp}"))
+    if x in ("ev", "hartree", "joule"):
+        forms += [(DIV(t, U("mole")), rng.choice(sps) + rng.choice(["/mol", " / mole", "/mole"]))]
+    return forms
 DEC_NUMS = ["2", "3", "0.5", "2.5", "10", "1e-3", "1.25e2", "7", "0.125", "4.184", "1000", "1e6"]
 
 
@@ -654,6 +737,17 @@ def gen_cases(ctx: Ctx):
                 o = rng.choice(BRIDGED[tgt])
                 yield ("Bp", year, U(b, p), o, render(U(b, p), rng), render(o, rng))
                 yield ("Bp", year, o, U(b, p), render(o, rng), render(U(b, p), rng))
+    # ---- Rl: every reachable published relationship of every set, anchored to the physics at the per-set tolerance
+    for year in years:
+        for x, y in REL_REACHABLE:
+            blk = f"Rl{year}:{x}-{y}"
+            targets = rel_targets(y)
+            for ta, sa in rel_source_forms(rng, x):
+                yield (blk, year, ta, REL_BARE_TARGET[y], sa, INVM_SPELLINGS[0] if y == "invm" else rng.choice(spellings(*REL_BARE_TARGET[y][1:])))
+                for tb in (targets if ctx.thorough else rng.sample(targets, 5)):
+                    if rng.random() < 0.25:
+                        tb = MUL(N(rng.choice(DEC_NUMS)), tb)
+                    yield (blk, year, ta, tb, sa, render(tb, rng))
     # ---- U: unrelated dimensions must raise
     classes = list(SEEDS)
     for _ in range(ctx.scale(600, 8000)):
@@ -715,7 +809,7 @@ def classify_known(K, year, ta, tb, res, magree):
     expected = py_mag(K, ta) * equiv(K, na) / (py_mag(K, tb) * equiv(K, nb))
     for (_, p, b) in leaves(ta):
         if p != 0 and b in NIST_BASE and (na in NAME_NODES or nb in NAME_NODES):
-            if relerr(res[1], expected * Fraction(10) ** p) <= BR_TOL:
+            if relerr(res[1], expected * Fraction(10) ** p) <= br_tol(year, na, nb):
                 # sharpen: rescale the implementation's own conversion of the source with that prefix removed
                 # (tu) to the source's magnitude; the observed value is 10^p times that, to 1e-9
                 tu = strip_prefix(ta, b, p)
@@ -788,9 +882,15 @@ def check_conversion(out: Outcome, block, year, ta, tb, sa, sb, model_line, res=
         bad = None
         if res[0] != "ok":
             bad = ("oracle:bridge_error", f"bridged conversion raised {res[1]} instead of returning E=h nu=hc/lambda=mc^2=kT")
-        elif relerr(res[1], exact) > BR_TOL:
-            bad = ("oracle:bridge_physics", "bridged factor disagrees with E=h nu=hc/lambda=mc^2=kT (N_A) beyond 1e-7 relative")
+        elif relerr(res[1], exact) > br_tol(year, na, nb):
+            dev = relerr(res[1], exact)
+            if dev <= BR_TOL_LOOSE:
+                out.count("bridge_physics:beyond-per-set-tolerance-only")
+            bad = ("oracle:bridge_physics", f"bridged factor disagrees with E=h nu=hc/lambda=mc^2=kT (N_A) of CODATA{year} by {float(dev):.3e} relative "
+                                             f"(tolerance {br_tol_text(year, na, nb)} for this set{' and temperature' if 'Th' in (na, nb) else ''})")
         else:
+            key = (year, "Th" in (na, nb))
+            _DEV[key] = max(_DEV.get(key, Fraction(0)), relerr(res[1], exact))
             # to or from hartree against the published relationship
             pub = None
             if enc(ta) == enc(U("hartree")) and enc(tb) in HARTREE_PUBLISHED:
@@ -847,6 +947,7 @@ def conv_line(year, ta, tb):
 def run(ctx: Ctx) -> Outcome:
     out = Outcome()
     rng = ctx.rng
+    _DEV.clear()
     cases = list(gen_cases(ctx))
     triples = list(gen_triples(ctx))
     lines = [conv_line(y, a, b) for (_, y, a, b, _, _) in cases]
@@ -866,14 +967,21 @@ def run(ctx: Ctx) -> Outcome:
     typed_routes(ctx, out)
     out.exhaustive = False
     out.notes.append("blocks P, S(pairs of seeds), B are exhaustive over their stated corpus; decorations, spellings, Bd, U, T are sampled from VERIF_SEED")
-    out.notes.append(f"tolerances: tie 1e-12, same-dimension oracle 1e-12, bridged physics 1e-7, published hartree relationships 1e-9, relational products 1e-11")
+    out.notes.append("tolerances: tie 1e-12, same-dimension oracle 1e-12, published hartree relationships 1e-9, relational products 1e-11; bridged physics per CODATA set: "
+                     + ", ".join(f"CODATA{y}{' with temperature' if t else ''} {float(v):.0e}" for (y, t), v in sorted(BR_TOL.items()))
+                     + " (measured consistency of the published tables: 2.95e-10, 1.08e-8, 4.81e-10, 3.50e-10); round trips (1+t)^2-1")
+    out.notes.append("largest distance from E=h nu=hc/lambda=mc^2=kT among the bridged conversions accepted this run: "
+                     + ", ".join(f"CODATA{y}{' with temperature' if t else ''} {float(v):.2e}" for (y, t), v in sorted(_DEV.items())))
+    rl = {k[len("block:"):]: v for k, v in out.distribution.items() if k.startswith("block:Rl")}
+    out.notes.append(f"block Rl: {len(rl)} of {2 * len(REL_REACHABLE)} (set, reachable published relationship) pairs exercised, "
+                     f"between {min(rl.values()) if rl else 0} and {max(rl.values()) if rl else 0} conversions each")
     return out
 
 
 def relational(ctx: Ctx, out: Outcome, cases, results):
     """diagonal, reciprocity, prefactor linearity — stated directly on the implementation"""
     rng = ctx.rng
-    pool = [c for c in cases if c[0] in ("S", "B", "Bd", "P", "Bp")]
+    pool = [c for c in cases if c[0] in ("S", "B", "Bd", "P", "Bp") or c[0].startswith("Rl")]
     chosen = rng.sample(pool, min(len(pool), ctx.scale(2500, 40000)))
     # the reverse directions that were not generated get their model line in one batch
     need = [(y, tb, ta, sb, sa) for (_, y, ta, tb, sa, sb) in chosen
@@ -888,7 +996,11 @@ def relational(ctx: Ctx, out: Outcome, cases, results):
             continue
         case = case_json(block, year, ta, tb, sa, sb)
         bridged = py_dim(ta) != py_dim(tb)
-        tol = BR_TOL if bridged else REL_TOL
+        tol = REL_TOL
+        if bridged:
+            # each direction is within t of the physics (checked on its own), so the round trip is within (1+t)^2 - 1 of 1
+            t = br_tol(year, NODE_OF_DIM.get(py_dim(ta)), NODE_OF_DIM.get(py_dim(tb)))
+            tol = (1 + t) ** 2 - 1
         # diagonal
         d = call_impl(year, sa, sa)
         out.evaluations += 1
